@@ -65,6 +65,8 @@ func main() {
 	lemmas := flag.String("lemmas", "", "comma-separated lemma names to check ('all' = every lemma)")
 	dump := flag.String("dump", "", "dump SSA of function key and exit")
 	sweep := flag.String("sweep", "", "safety sweep: select every function (with or without contract) whose short key contains this substring ('.' = all)")
+	localsIn := flag.String("locals-in", "", "recorded variable names per function (rename tolerance, see locals.go)")
+	localsOut := flag.String("locals-out", "", "write the variable names of the selected functions to this file")
 	onlyFile := flag.String("only", "", "file with obligation names: solve only these (others are generated and listed as skipped)")
 	flag.Parse()
 	t0 := time.Now()
@@ -139,6 +141,8 @@ func main() {
 	}
 	var jobs []*job
 	var frs []*FuncResult
+	recorded := loadLocals(*localsIn)
+	namesNow := map[string][]string{}
 	vcs := map[string]*VC{}
 	for _, k := range keys {
 		fn := eng.Funcs[k]
@@ -156,6 +160,26 @@ func main() {
 			sp.Bound = true
 		}
 		vc := NewVC(eng, fn, sp)
+		namesNow[shortKey(k)] = localNames(fn)
+		vc.renames = map[string]string{}
+		if rec, ok := recorded[shortKey(k)]; ok {
+			for a, b := range renameMap(rec, namesNow[shortKey(k)]) {
+				vc.renames[a] = b
+			}
+		}
+		// closures also see the enclosing functions' variables
+		for p, pk := fn.Parent(), shortKey(k); p != nil; p = p.Parent() {
+			if i := strings.LastIndex(pk, "$"); i > 0 {
+				pk = pk[:i]
+			}
+			if rec, ok := recorded[pk]; ok {
+				for a, b := range renameMap(rec, localNames(p)) {
+					if _, dup := vc.renames[a]; !dup {
+						vc.renames[a] = b
+					}
+				}
+			}
+		}
 		if err := vc.Generate(); err != nil {
 			fr.Error = err.Error()
 			continue
@@ -321,6 +345,11 @@ func main() {
 		}
 	}
 	sort.Strings(out.Unbound)
+	if *localsOut != "" {
+		if data, err := json.MarshalIndent(namesNow, "", " "); err == nil {
+			os.WriteFile(*localsOut, data, 0o644) //nolint:errcheck
+		}
+	}
 	for _, fr := range out.Funcs {
 		if fr.nUnreach > 0 && fr.nReach == 0 {
 			fr.Canary = "all-returns-unreachable"
